@@ -383,11 +383,12 @@ func ruleCopyAllFields(c *Ctx, rule string) {
 func ruleConvNil(c *Ctx, rule string) {
 	l := c.L
 	reg := l.Func(modPath+"/registry", "RegisterObjectConverter")
-	if !c.Anchor(rule, "registry.RegisterObjectConverter", reg != nil) {
+	regAny := l.Func(modPath+"/registry", "RegisterAnyConverter")
+	if !c.Anchor(rule, "registry.RegisterObjectConverter / RegisterAnyConverter", reg != nil && regAny != nil) {
 		return
 	}
 	n := 0
-	for _, ci := range l.StaticCallers(reg) {
+	for _, ci := range append(append([]ssa.CallInstruction{}, l.StaticCallers(reg)...), l.StaticCallers(regAny)...) {
 		args := ci.Common().Args
 		if len(args) != 2 {
 			continue
@@ -432,8 +433,19 @@ func ruleConvNil(c *Ctx, rule string) {
 				return
 			}
 			for _, r := range *val.Referrers() {
-				u, ok := r.(*ssa.UnOp)
-				if !ok || u.Op != token.MUL || u.X != val {
+				// a dereference of the asserted pointer: *p, or p.field
+				var u ssa.Instruction
+				switch x := r.(type) {
+				case *ssa.UnOp:
+					if x.Op == token.MUL && x.X == val {
+						u = x
+					}
+				case *ssa.FieldAddr:
+					if x.X == val {
+						u = x
+					}
+				}
+				if u == nil {
 					continue
 				}
 				n++
@@ -451,7 +463,7 @@ func ruleConvNil(c *Ctx, rule string) {
 						}
 					}
 				}
-				c.Check(rule, fmt.Sprintf("%s | converter for %s", fnName(ci.Parent()), tstr(ta.AssertedType)), l.Pos(u.Pos()), guarded, "dereference dominated by a nil test", "the converter dereferences the asserted pointer without a nil test: a typed nil pointer of this type makes ToObject panic instead of returning a value or an error")
+				c.Check(rule, fmt.Sprintf("%s | converter for %s", fnName(ci.Parent()), tstr(ta.AssertedType)), l.Pos(u.Pos()), guarded, "dereference dominated by a nil test", "the converter dereferences the asserted pointer without a nil test: a typed nil pointer of this type makes ToObject / ToInterface panic instead of returning a value or an error")
 			}
 		})
 	}
